@@ -112,7 +112,7 @@ func (fa facts) kill(key string) {
 			delete(fa, k)
 		}
 		// an alias whose defining expression reads key no longer equals that expression
-		if strings.HasPrefix(k, "alias:") && (containsWord(v, key) || strings.Contains(v, key+".")) {
+		if strings.HasPrefix(k, "alias:") && mentionsChain(v, key) {
 			delete(fa, k)
 		}
 	}
@@ -550,4 +550,22 @@ func nodeID(n ast.Node) int {
 		nodeIDs[n] = id
 	}
 	return id
+}
+
+// mentionsChain: text s reads the variable/selector chain key or something selected from it
+// (key at the start of a chain, followed by '.' or a non-identifier character).
+func mentionsChain(s, key string) bool {
+	for i := 0; i+len(key) <= len(s); i++ {
+		if s[i:i+len(key)] != key {
+			continue
+		}
+		if i > 0 && isIdentChar(s[i-1]) {
+			continue
+		}
+		if j := i + len(key); j < len(s) && isIdentChar(s[j]) && s[j] != '.' {
+			continue
+		}
+		return true
+	}
+	return false
 }
